@@ -6,6 +6,7 @@ All statements are about `Mxl.sortDeps`, the function the driver executes, which
 -/
 import MxlVerif.Lemmas.Sort
 import MxlVerif.Lemmas.SortMissing
+import MxlVerif.Lemmas.Unique
 namespace Mxl.C02
 open Mxl
 
@@ -127,6 +128,20 @@ theorem C02_order_independent_acceptance (av : List Name) (els els' : List Dep)
   · rintro ⟨o, ho⟩
     obtain ⟨o', ho', _⟩ := C02_acyclic_sorts av els hnd (hiff.mpr (C02_ok_is_schedule av els' hnd' o ho).2.2)
     exact ⟨o', ho'⟩
+
+/-- **Order independence of the values.**  Two models with the same components (as a
+    name ↦ component map) and the same plain values, declared in any two orders, evaluate every
+    name to the same value at time zero — each component having seen the finished values of
+    everything it names (`createCache_consistent`) — so every variable gets the same initial value. -/
+theorem C02_order_independent_values {c c' : Content}
+    (hts : ∀ k, c'.toSort.lookup k = c.toSort.lookup k)
+    (hbase : ∀ n, (baseEnv (plainOf c'.pars) (plainOf c'.vars) c'.data 0).lookup n =
+      (baseEnv (plainOf c.pars) (plainOf c.vars) c.data 0).lookup n)
+    (hav : ∀ r, r ∈ c'.available ↔ r ∈ c.available)
+    (hwf : WFc c) (hwf' : WFc c') {cache cache' : Cache}
+    (h : createCache c = .ok cache) (h' : createCache c' = .ok cache') :
+    ∀ kv ∈ cache.init, ∀ kv' ∈ cache'.init, kv.1 = kv'.1 → kv.2 = kv'.2 :=
+  createCache_init_unique hts hbase hav hwf hwf' h h'
 
 /-! ### non-vacuity: concrete graphs meeting the hypotheses -/
 
